@@ -11,6 +11,7 @@ time that occurs twice (fall-back) matches at BOTH instants, so such a job runs 
 (spec_test.go pins this for America/New_York).
 -/
 import KitProofs.Lemmas.CronDstNext
+import KitProofs.Lemmas.CronDstTable
 import KitProofs.Props.C04Next
 
 namespace Kit.CronSpec
@@ -52,5 +53,47 @@ theorem next_dst_hour_zones {z : Zone} {b : Int → Int} (H : HourZone z b) (s :
       by_cases h : u < t'; exact h
       have := year_mono_hz H (u := t') (v := u) (by omega); omega
     exact hnm u (Or.inl ⟨by omega, hlt⟩)
+
+/-- The DST statement of DESIGN §3 (C04, item 6), widened to transitions at any whole local hour,
+midnight included: for every transition table that passes the decidable check `hourTable`
+(offsets whole hours with |off| ≤ 26 h, transitions on whole UTC hours, each changing the offset by
+exactly one hour, at least 1801 hours apart), every schedule and every start instant. -/
+def next_dst_statement : Prop :=
+  ∀ (z : Zone), hourTable z = true → ∀ (s : Sched) (tn : Int), NextSpecZ s z tn (next s z tn)
+
+theorem next_dst_tables : next_dst_statement :=
+  fun z h s tn => next_dst_hour_zones (hourZone_of_table z h) s tn
+
+/-! ### the hypotheses are satisfiable by real zones; and they are needed -/
+
+/-- America/Havana 2017/18 (DST starts at local midnight, ends at 01:00 → 00:00) is an hour zone. -/
+example : hourTable havana = true := by decide
+
+/-- America/New_York 2017–2019. -/
+def newYork : Zone :=
+  [(0, -18000), (1489302000, -14400), (1509861600, -18000), (1520751600, -14400),
+   (1541311200, -18000), (1552201200, -14400), (1572760800, -18000)]
+example : hourTable newYork = true := by decide
+
+/-- The repaired search on Havana: concrete instance of the theorem (the case of
+`next_right_day_havana`). -/
+example : NextSpecZ ⟨1, 1, 2, 2048, 8, 9223372036854775935⟩ havana 1489251600000000000
+    (next ⟨1, 1, 2, 2048, 8, 9223372036854775935⟩ havana 1489251600000000000) :=
+  next_dst_tables havana (by decide) _ _
+
+/-- Australia/Lord_Howe (half-hour shift) is not an hour zone — and the statement fails there
+(`next_missed_lord_howe`, `next_nonmatching_lord_howe`). -/
+example : hourTable lordHowe = false := by decide
+
+/-- Antarctica/Troll 2017 (two-hour shift): not an hour zone; the statement fails:
+`0 0 2 29 10 *`-style schedule with hour {2} from 01:30+02:00 skips 02:00+02:00. -/
+def troll : Zone := [(0, 0), (1490490000, 7200), (1509238800, 0), (1521939600, 7200)]
+example : hourTable troll = false := by decide
+theorem next_missed_troll :
+    next ⟨1, 1, 4, 9223372041149743102, 8190, 9223372036854775935⟩ troll 1509233400000000000
+      = .at 1509242400 ∧
+    Matches ⟨1, 1, 4, 9223372041149743102, 8190, 9223372036854775935⟩ troll 1509235200 ∧
+    (1509233400000000000 : Int) < 1509235200 * 1000000000 ∧ (1509235200 : Int) < 1509242400 := by
+  decide
 
 end Kit.CronSpec
